@@ -87,26 +87,27 @@ function genSpec(seed, idx) {
   const nMethods = 1 + rng.below(6);
   for (let m = 0; m < nMethods; m++) {
     const owner = rng.pick(opaques);
-    const nl = rng.pick([1, 2, 3, 4, 4]);
+    // (0 = the method has no generics of its own and can only use the impl block's lifetimes)
+    const nl = owner.lts.length && rng.chance(1, 8) ? 0 : rng.pick([1, 2, 3, 4, 4]);
     const lts = LTS.slice(0, nl);
     // the Self type of the impl block: usually fully generic, sometimes with a 'static slot (`impl<'s1> O<'static, 's1>`)
-    let implLts = owner.lts.map((_, i) => (rng.chance(1, 6) ? "static" : "s" + i));
+    let implLts = owner.lts.map((_, i) => (nl > 0 && rng.chance(1, 6) ? "static" : "s" + i));
     // a Self type that mixes 'static and named slots, used together with parameters on the impl's lifetimes
-    const mixedSelf = owner.lts.length >= 2 && rng.chance(1, 3);
+    const mixedSelf = nl > 0 && owner.lts.length >= 2 && rng.chance(1, 3);
     if (mixedSelf) { const st = rng.below(owner.lts.length); implLts = owner.lts.map((_, i) => (i === st ? "static" : "s" + i)); }
     // lifetimes used in parameter and return types: the method's own, sometimes the impl block's
     const namedImpl = implLts.filter((l) => l !== "static");
-    const anyLt = () => (namedImpl.length && rng.chance(1, 5) ? rng.pick(namedImpl) : rng.pick(lts));
+    const anyLt = () => (namedImpl.length && (!lts.length || rng.chance(1, 5)) ? rng.pick(namedImpl) : rng.pick(lts));
     const outerLt = () => (rng.chance(1, 4) ? null : anyLt()); // null = anonymous `&T`
     const isStatic = mixedSelf ? false : rng.chance(1, 3);
-    const self = isStatic ? null : { lt: mixedSelf ? rng.pick(lts) : outerLt() };
+    const self = isStatic ? null : { lt: mixedSelf ? rng.pick(lts) : outerLt(), mut: rng.chance(1, 5) };
     const params = [];
     const np = rng.below(4);
     for (let p = 0; p < np; p++) {
       const r = rng.below(10);
       if (r < 5 || (r >= 8 && !structs.length)) {
         const o = rng.pick(opaques);
-        params.push({ name: "p" + p, kind: "opaque", ty: o.name, lt: outerLt(), args: o.lts.map(() => anyLt()) });
+        params.push({ name: "p" + p, kind: "opaque", ty: o.name, lt: outerLt(), args: o.lts.map(() => anyLt()), mut: rng.chance(1, 5) });
       } else if (r < 6) {
         const o = rng.pick(opaques);
         params.push({ name: "p" + p, kind: "optopaque", ty: o.name, lt: outerLt(), args: o.lts.map(() => anyLt()) });
@@ -129,6 +130,7 @@ function genSpec(seed, idx) {
     const ret = { kind: rkind, ty: ro.name, lt: rkind === "ref" || rkind === "optref" ? anyLt() : null, args: ro.lts.map(() => anyLt()) }; // ('static is not generated: the JS backend panics on it, which is C15's subject)
     // bounds: the ones definitions force (they must be spelled out), plus random extra ones
     const bounds = [];
+    const addBoundLate = [];
     const addBound = (longer, shorter) => {
       if (longer === shorter || longer === "static" || shorter === "static") return;
       if (!bounds.some((b) => b[0] === longer && b[1] === shorter)) bounds.push([longer, shorter]);
@@ -147,10 +149,16 @@ function genSpec(seed, idx) {
         if (rl.length) { const r = rng.pick(rl); for (const x of lts) if (x !== r && rng.chance(5, 6)) addBound(x, r); }
     }
     const implBounds = owner.bounds.map(([l, s]) => [implLts[owner.lts.indexOf(l)], implLts[owner.lts.indexOf(s)]]).filter(([l, s]) => l !== "static" && s !== "static");
+    // `Self` in return position when the returned type is exactly the impl's Self type
+    if (ret.ty === owner.name && !(rkind === "struct" || rkind === "resstruct") && !implLts.includes("static") && rng.chance(1, 3)) {
+      ret.args = implLts.slice(); ret.selfSpelling = true;
+      if (ret.lt) for (const y of ret.args) addBoundLate.push([y, ret.lt]);
+    }
     // special-method attributes change how the binding exposes the method (`new T(..)`, a property), not what it borrows
     let special = null;
     if (isStatic && (rkind === "box" || rkind === "resbox") && ret.ty === owner.name && !methods.some((x) => x.owner === owner.name && x.special === "constructor") && rng.chance(1, 2)) special = "constructor";
     else if (!isStatic && params.length === 0 && rng.chance(1, 2)) special = "getter";
+    for (const [l, sh] of addBoundLate) addBound(l, sh);
     methods.push({ owner: owner.name, name: "m" + m, static: isStatic, lts, implLts, implBounds, self, params, ret, bounds, special });
   }
   return { seed, idx, opaques, structs, outs, methods };
@@ -168,14 +176,14 @@ function fieldSliceTy(enc, l) {
   return enc === "u8s" ? "DiplomatSlice<" + lt(l) + ", u8>" : enc === "str" ? "DiplomatUtf8StrSlice<" + lt(l) + ">" : enc === "DiplomatStr16" ? "DiplomatStr16Slice<" + lt(l) + ">" : "DiplomatStrSlice<" + lt(l) + ">";
 }
 function paramTy(p) {
-  const r = p.lt ? "&" + lt(p.lt) + " " : "&";
+  const r = (p.lt ? "&" + lt(p.lt) + " " : "&") + (p.mut ? "mut " : "");
   if (p.kind === "opaque") return r + p.ty + tyArgs(p.args);
   if (p.kind === "optopaque") return "Option<" + r + p.ty + tyArgs(p.args) + ">";
   if (p.kind === "slice") return sliceTy(p.enc, p.lt);
   return p.ty + tyArgs(p.args);
 }
 function retTy(r) {
-  const inner = r.ty + tyArgs(r.args);
+  const inner = r.selfSpelling ? "Self" : r.ty + tyArgs(r.args);
   switch (r.kind) {
     case "box": return "Box<" + inner + ">";
     case "ref": return "&" + lt(r.lt) + " " + inner;
@@ -215,7 +223,7 @@ export function rustSource(spec) {
     s += "    }\n\n";
     for (const m of spec.methods.filter((m) => m.owner === o.name)) {
       const ps = [];
-      if (m.self) ps.push((m.self.lt ? "&" + lt(m.self.lt) + " " : "&") + "self");
+      if (m.self) ps.push((m.self.lt ? "&" + lt(m.self.lt) + " " : "&") + (m.self.mut ? "mut " : "") + "self");
       for (const p of m.params) ps.push(p.name + ": " + paramTy(p));
       const named = m.implLts.filter((l) => l !== "static");
       s += "    impl" + generics(named, m.implBounds) + " " + o.name + tyArgs(m.implLts) + " {\n";
